@@ -4,6 +4,7 @@ import (
 	"go/constant"
 	"go/types"
 	"sort"
+	"strings"
 
 	"golang.org/x/tools/go/ssa"
 
@@ -183,6 +184,46 @@ func checkModifierFlags(c *core.Ctx) {
 			if !ok {
 				c.Report(core.Finding{Rule: "R04.26", Pkg: instsPkg, Func: "InstPrinter.Print", Detail: "modifier-not-printed:" + name + ":" + field,
 					Pos: c.Position(prt.Pos()), Msg: "the decoder of format " + name + " stores Inst." + field + " but the printer arm of that format never reads " + fields[0] + " / " + fields[1] + ": an instruction with a negated (absolute) source is printed like the plain one, so the disassembly is not the instruction that was encoded"})
+			}
+		}
+	}
+}
+
+// checkOperandsFresh (R04.27): every operand of a decoded instruction is storage of
+// that instruction. The format decoders adjust operands after they were built
+// (`inst.Src0.RegCount = 2` for 64-bit sources), so an operand object handed out
+// twice - a shared prototype for an inline constant, a cached table entry - makes
+// the decoding of one instruction change another one, and the same bytes decode
+// differently depending on what was decoded before.
+func checkOperandsFresh(c *core.Ctx) {
+	st := c.Rule("R04.27", "every function of the decoder that returns a *Operand (getOperand, the New*Operand constructors and what they call) returns storage allocated in that call on every path (allocation, composite literal, result of another such function; never a pointer loaded from a package-level table, a field or a map): the format decoders write into the operands they receive (RegCount of 64-bit sources), so a shared operand object lets one decoded instruction change another and makes decoding depend on history", 5)
+	pi := NewPkgInfo(c, instsPkg)
+	if pi.Pkg == nil {
+		return
+	}
+	fc := newFreshCtx(c)
+	for _, fn := range pi.Funcs {
+		if fn.Signature.Recv() != nil && fn.Name() != "getOperand" {
+			// methods of Operand / Reg are not constructors
+		}
+		res := fn.Signature.Results()
+		for i := 0; i < res.Len(); i++ {
+			if namedTypeName(res.At(i).Type()) != "insts.Operand" {
+				continue
+			}
+			if _, isPtr := res.At(i).Type().(*types.Pointer); !isPtr {
+				continue
+			}
+			// only the decode side: getOperand and the constructors
+			if fn.Name() != "getOperand" && !strings.HasPrefix(fn.Name(), "New") && !strings.HasPrefix(fn.Name(), "new") {
+				continue
+			}
+			st.Instances++
+			c.MarkAnalysed(fn)
+			r := fc.result(fn, i)
+			st.Ob(r.ok)
+			if !r.ok {
+				c.ReportAt("R04.27", fn, fn.Pos(), "operand-shared:"+fn.Name(), core.FuncName(fn)+" can return an operand that is not allocated by the call ("+r.why+"): the decoders set RegCount on the operands of 64-bit instructions, so decoding `v_rcp_f64 v[0:1], 1.0` changes the operand of every instruction that uses the same constant, before and after")
 			}
 		}
 	}
